@@ -68,7 +68,13 @@ template <typename CharT>
             break;
         }
     }
-    return static_cast<int>(*lhs) - static_cast<int>(*rhs);
+    if constexpr (sizeof(CharT) == 1) {
+        auto const l = static_cast<unsigned char>(*lhs);
+        auto const r = static_cast<unsigned char>(*rhs);
+        return static_cast<int>(l > r) - static_cast<int>(l < r);
+    } else {
+        return static_cast<int>(*lhs > *rhs) - static_cast<int>(*lhs < *rhs);
+    }
 }
 
 template <typename CharT, typename SizeT>
